@@ -51,20 +51,22 @@ WSum(ev, st, res) ==
   [class |-> FaultClass(Plan(ev), st), redundant |-> st.redundant, k |-> ev.k,
    res |-> res, at |-> ev.aat, term |-> ev.aterm,
    prefix |-> ev.acc_len <= ev.full_len /\ ev.acc_digest = ev.full_prefix_digest,
-   complete |-> ev.acc_len = ev.full_len /\ ev.acc_digest = ev.full_prefix_digest]
+   complete |-> ev.acc_len = ev.full_len /\ ev.acc_digest = ev.full_prefix_digest,
+   nomissing |-> ev.acc_len >= ev.full_len,
+   \* rb = "none": the format has no reader here (json array, avro single-object) - under the premise
+   \* of W7 a call succeeded after a failure, and then the driver reads back whenever a reader exists
+   rbnone |-> ev.rb = "none",
+   rbsame |-> ev.rb = "ok" /\ ev.rb_got = ev.rb_ref]
 
 (* the session as judged with the API results `res`: sink log, W0-W4          *)
-WBaseBut7(ev, res) ==
+WBase(ev, res) ==
   /\ LogShape(ev)
   /\ SinkLogLegal(Plan(ev), ev.sop, ev.slen, ev.sret)   \* the sink behaved as the model's sink
   /\ LET st == LogState(Plan(ev), ev.sop, ev.slen, ev.sret) IN
      /\ st.acc = ev.acc_len            \* it accepted exactly acc_len bytes
      /\ st.fired = ev.fired
-     /\ WriterOkBut7(WSum(ev, st, res))
+     /\ WriterOk(WSum(ev, st, res))
   /\ ev.outcome = Outcome(ev.ares)
-
-Retry7(ev, res) == W7(WSum(ev, LogState(Plan(ev), ev.sop, ev.slen, ev.sret), res))
-WBase(ev, res) == WBaseBut7(ev, res) /\ Retry7(ev, res)
 
 (* W5 - Parquet (footer indexes every row group): a footer is never written   *)
 (* after a row group that failed.  When a data call (write / flush: they      *)
@@ -82,10 +84,11 @@ PqStrict(ev, res) ==
   (ev.fmt \in {"parquet", "pq_async"} /\ n >= 1 /\ st.fired /\ ~st.redundant) =>
      ((\E i \in 1..(n - 1) : ev.api[i] \in {"write", "flush"} /\ res[i] = "err") => res[n] # "ok")
 
-(* W6 - a terminating call reported success after an earlier call reported a  *)
-(* failure: the bytes the sink holds, read with the format's reader (rb = its *)
-(* outcome, rb_rows = the rows it returned), never yield a row that was not   *)
-(* written                                                                     *)
+(* W6 - some call reported success after an earlier call reported a failure:  *)
+(* the bytes the sink holds, read with the format's reader (rb = its outcome, *)
+(* rb_rows = the rows it returned; rb_got / rb_ref = the batches it returned  *)
+(* for these bytes / for the fault-free output, used by W7), never yield a    *)
+(* row that was not written                                                    *)
 ReadBackOk(ev) ==
   ev.rb # "none" =>
     /\ ev.rb \in {"ok", "err"}
@@ -122,25 +125,7 @@ PqAsyncCloseAfterFailure(ev) ==
   /\ ~PqStrict(ev, ev.ares)
   /\ ev.acc_len < ev.full_len
 
-(* Known finding C18-ipc-finish-retry-duplicates: arrow_ipc FileWriter /      *)
-(* StreamWriter::finish sets `finished` only at its end and starts over with  *)
-(* write_eos when it is called again after a failure: a retry that succeeds   *)
-(* leaves a second end-of-stream marker (file writer: also the first, possibly *)
-(* partial, footer copy) in the output - more bytes than the fault-free       *)
-(* output, not the same bytes.  Identified by: format ipc_*, a one-shot fault  *)
-(* in the terminating phase (every reported failure is a terminating call's),  *)
-(* W7 is the only rule that fails, bytes were added (none missing:            *)
-(* acc_len > full_len) and the format's reader still returns every written    *)
-(* row from the result.                                                        *)
-IpcFinishRetryDup(ev) ==
-  /\ ev.fmt \in {"ipc_file", "ipc_stream"} /\ ev.kind \in {"error_once", "zero", "interrupted"}
-  /\ WBaseBut7(ev, ev.ares) /\ PqStrict(ev, ev.ares) /\ ReadBackOk(ev)
-  /\ ~Retry7(ev, ev.ares)
-  /\ ev.acc_len > ev.full_len
-  /\ ev.rb = "ok" /\ ev.rb_rows = ev.rb_written
-
 WKF(ev) == IF CsvIntoInnerPanic(ev) THEN "C18-csv-into-inner-unwrap"
-           ELSE IF IpcFinishRetryDup(ev) THEN "C18-ipc-finish-retry-duplicates"
            ELSE IF PqAsyncCloseAfterFailure(ev) THEN "C18-pq-async-close-after-failed-write"
            ELSE ""
 
